@@ -1,6 +1,7 @@
 """C09 -- crash consistency (DESIGN §4 C09): fault enumeration over crash points."""
 import json
 import os
+import shutil
 
 from .. import rt, rtgen
 from .. import tracefmt as tf
@@ -238,6 +239,56 @@ def run(case, ctx):
                         return bad
             plan.faults = []
             plan.knobs["diskfull_from"] = None
+        # restart in place: a second incarnation of the same program (same loom, PID, TIDs) starts on the trace directory the
+        # first one left complete, and is killed at every step in turn.  What is visible afterwards is judged as before; a
+        # stream that still is the first incarnation's, whole and untouched, counts as that incarnation's and is left alone.
+        if len(plan.ops) == 1 and int(info["ihash"][:4], 16) % 3 == 0 and not plan.knobs.get("symlinks"):
+            keep = os.path.join(d, "first-incarnation")
+            shutil.copytree(os.path.join(base.root, rtgen.tracedir_of(plan.knobs).rstrip("/")), keep)
+            plan.faults = []
+            plan.knobs["diskfull_from"] = None
+            plan.knobs["restart_from"] = keep
+            plan.knobs["sched"] = None
+            second = rt.run_plan(ctx, plan, d, variant=case["variant"])
+            info["evals"] += 1
+            if second.status != 0 or second.hist.end != "done":
+                return result(False, "restart-in-place-failed", None, "a second incarnation on the complete trace directory of the first: status %s end %s\n--- tool stderr (tail) ---\n%s"
+                              % (second.status, second.hist.end, second.stderr[-600:]), **info)
+            steps2 = second.hist.steps
+            plan.knobs["sched"] = second.hist.sched or None
+            for k in range(len(steps2)):
+                plan.knobs["crash_step"] = k
+                plan.knobs["crash_partial"] = None
+                out = rt.run_plan(ctx, plan, d, variant=case["variant"])
+                info["evals"] += 1
+                if out.status != 137 or out.hist.end != "crash":
+                    continue
+                info["faults"]["restart-in-place kill:" + steps2[k].call] = info["faults"].get("restart-in-place kill:" + steps2[k].call, 0) + 1
+                hashes.append(ihash([info["ihash"], "restart", k]))
+                untouched = True
+                for tid in case["tids"]:
+                    sd = rtgen.stream_dir(out.root, plan.knobs, tid)
+                    try:
+                        if open(os.path.join(sd, "stream.obs"), "rb").read() != truth[tid] or \
+                                not os.path.exists(os.path.join(sd, "stream.json")):
+                            untouched = False
+                    except OSError:
+                        untouched = False
+                if untouched and not plan.knobs.get("tmpdir"):
+                    pass
+                bad = None if untouched else examine(ctx, out, plan, case, truth, steps2, k, None, info,
+                                                     what="second incarnation on the first one's trace directory, killed before step %d (%s %s)"
+                                                     % (k, steps2[k].call, steps2[k].path))
+                if bad is not None:
+                    bad["det"] = bad["detail"].split("\n--- tool stderr")[0]
+                    if bad["vclass"] == "finished-before-data-in-place":
+                        if pending is None:
+                            pending = bad
+                        continue
+                    bad["ihashes_nontrivial"] = hashes
+                    return bad
+            plan.knobs["restart_from"] = None
+            plan.knobs["crash_step"] = None
         if pending is not None:
             pending["ihashes_nontrivial"] = hashes
             pending["evals"] = info["evals"]
